@@ -2054,8 +2054,8 @@ class Interp:
         if isinstance(v, Unknown):
             if v.flag:
                 return atom("FLAG")
-            if v.patterns:
-                return atom("HAS")
+            if v.patterns or getattr(v, "_pattern_tuple", False):
+                return atom("HAS")  # (`() if patterns is None else patterns` is empty exactly when there are no patterns)
             if hasattr(v, "_len_of"):
                 return self.truth(v._len_of)
             return self.free(f"T[{v.text}]", v.taint)
@@ -2090,7 +2090,7 @@ class Interp:
             return TRUE
         if isinstance(v, AltV):
             return disj(conj([g, self.patterns_empty(x)]) for g, x in v.alts)
-        if isinstance(v, Unknown) and v.patterns:
+        if isinstance(v, Unknown) and (v.patterns or getattr(v, "_pattern_tuple", False)):
             return f_not(atom("HAS"))
         return FALSE if isinstance(v, (Coll, Obj, Opaque)) else self.free(f"EMPTY[{key(v)}]", taint_of(v))
 
